@@ -178,8 +178,9 @@ func (s *rrSegFetcher) handleData(args ndn.ExpressCallbackArgs, state *ConsumeSt
 			return
 		}
 
-		// resize output buffer
-		state.content = make(enc.Wire, state.segCnt)
+		// the output buffer grows with the segments that arrive: the count is what
+		// the producer claims, and must not size an allocation by itself
+		state.content = make(enc.Wire, 0, min(state.segCnt, 64))
 	}
 
 	// process the incoming data
@@ -200,6 +201,11 @@ func (s *rrSegFetcher) handleData(args ndn.ExpressCallbackArgs, state *ConsumeSt
 	}
 
 	// copy the data into the buffer
+	if segNum >= len(state.content) {
+		grown := make(enc.Wire, min(state.segCnt, max(segNum+1, 2*len(state.content))))
+		copy(grown, state.content)
+		state.content = grown
+	}
 	state.content[segNum] = args.Data.Content().Join()
 
 	// empty data is not allowed
@@ -210,7 +216,7 @@ func (s *rrSegFetcher) handleData(args ndn.ExpressCallbackArgs, state *ConsumeSt
 
 	// if this is the first outstanding segment, move windows
 	if state.wnd[1] == segNum {
-		for state.wnd[1] < state.segCnt && state.content[state.wnd[1]] != nil {
+		for state.wnd[1] < len(state.content) && state.content[state.wnd[1]] != nil {
 			state.wnd[1]++
 		}
 
